@@ -189,6 +189,38 @@ Qed.
 Lemma ascii_lower_eq (c : N) : ascii_lower c = lower_byte c.
 Proof. reflexivity. Qed.
 
+(* Horner value of a digit string, most significant first *)
+Definition horner (B : N) (l : list N) : N := fold_left (fun acc d => acc * B + d) l 0.
+
+Lemma horner_snoc (B : N) (l : list N) (d : N) : horner B (l ++ [d]) = horner B l * B + d.
+Proof. unfold horner. rewrite fold_left_app. reflexivity. Qed.
+
+Lemma dg_horner (B : N) (l : list N) : B <> 0 -> forall k,
+  List.length l = k -> Forall (fun d => d < B) l -> dg B k (horner B l) = l.
+Proof.
+  intros HB. induction l as [|d l IH] using rev_ind; intros k HL HF.
+  - cbn [List.length] in HL. subst k. reflexivity.
+  - rewrite app_length in HL. cbn [List.length] in HL.
+    destruct k as [|k]; [lia|].
+    apply Forall_app in HF. destruct HF as [HF Hd]. inversion Hd as [|x y Hd' _]; subst.
+    rewrite dg_snoc by exact HB. rewrite horner_snoc.
+    assert (Eq : (horner B l * B + d) / B = horner B l).
+    { rewrite N.add_comm, N.div_add by exact HB.
+      rewrite (N.div_small d B Hd'). reflexivity. }
+    assert (Er : (horner B l * B + d) mod B = d).
+    { rewrite N.add_comm, N.mod_add by exact HB. apply N.mod_small. exact Hd'. }
+    rewrite Eq, Er. rewrite IH; [reflexivity|lia|exact HF].
+Qed.
+
+Lemma byte_bits (a : N) : a < 256 ->
+  exists b7 b6 b5 b4 b3 b2 b1 b0,
+    bits8 a = [b7; b6; b5; b4; b3; b2; b1; b0] /\
+    a = 128 * b7 + 64 * b6 + 32 * b5 + 16 * b4 + 8 * b3 + 4 * b2 + 2 * b1 + b0 /\
+    b7 < 2 /\ b6 < 2 /\ b5 < 2 /\ b4 < 2 /\ b3 < 2 /\ b2 < 2 /\ b1 < 2 /\ b0 < 2.
+Proof.
+  intros Ha. do 8 eexists. split; [reflexivity|]. lia.
+Qed.
+
 (* the 40 bits of five bytes, cut into eight quintets, are the base-32 digits
    of the 40-bit number *)
 Lemma quintets_group (a b c d e : N) (rest : list N) :
@@ -196,13 +228,21 @@ Lemma quintets_group (a b c d e : N) (rest : list N) :
   quintets (bits [a; b; c; d; e] ++ rest) = dg 32 8 (unbe [a; b; c; d; e]) ++ quintets rest.
 Proof.
   intros Ha Hb Hc Hd He.
-  unfold bits, bits8. cbn [flat_map app quintets].
-  unfold unbe, bval. cbn [fold_left dg app].
-  change (32 ^ N.of_nat 7) with 34359738368. change (32 ^ N.of_nat 6) with 1073741824.
-  change (32 ^ N.of_nat 5) with 33554432. change (32 ^ N.of_nat 4) with 1048576.
-  change (32 ^ N.of_nat 3) with 32768. change (32 ^ N.of_nat 2) with 1024.
-  change (32 ^ N.of_nat 1) with 32. change (32 ^ N.of_nat 0) with 1.
-  repeat (f_equal; [lia|]). reflexivity.
+  destruct (byte_bits a Ha) as [a7 [a6 [a5 [a4 [a3 [a2 [a1 [a0 [Ea [Sa Ba]]]]]]]]]].
+  destruct (byte_bits b Hb) as [b7 [b6 [b5 [b4 [b3 [b2 [b1 [b0 [Eb [Sb Bb]]]]]]]]]].
+  destruct (byte_bits c Hc) as [c7 [c6 [c5 [c4 [c3 [c2 [c1 [c0 [Ec [Sc Bc]]]]]]]]]].
+  destruct (byte_bits d Hd) as [d7 [d6 [d5 [d4 [d3 [d2 [d1 [d0 [Ed [Sd Bd]]]]]]]]]].
+  destruct (byte_bits e He) as [e7 [e6 [e5 [e4 [e3 [e2 [e1 [e0 [Ee [Se Be]]]]]]]]]].
+  unfold bits. cbn [flat_map]. rewrite Ea, Eb, Ec, Ed, Ee. cbn [app quintets].
+  set (q0 := bval [a7; a6; a5; a4; a3]). set (q1 := bval [a2; a1; a0; b7; b6]).
+  set (q2 := bval [b5; b4; b3; b2; b1]). set (q3 := bval [b0; c7; c6; c5; c4]).
+  set (q4 := bval [c3; c2; c1; c0; d7]). set (q5 := bval [d6; d5; d4; d3; d2]).
+  set (q6 := bval [d1; d0; e7; e6; e5]). set (q7 := bval [e4; e3; e2; e1; e0]).
+  assert (EV : unbe [a; b; c; d; e] = horner 32 [q0; q1; q2; q3; q4; q5; q6; q7]).
+  { unfold unbe, horner, q0, q1, q2, q3, q4, q5, q6, q7, bval. cbn [fold_left]. lia. }
+  rewrite EV. rewrite (dg_horner 32 [q0; q1; q2; q3; q4; q5; q6; q7]); [reflexivity|discriminate|reflexivity|].
+  unfold q0, q1, q2, q3, q4, q5, q6, q7, bval. cbn [fold_left].
+  repeat constructor; lia.
 Qed.
 
 Lemma bits_app (x y : bytes) : bits (x ++ y) = bits x ++ bits y.
